@@ -37,10 +37,10 @@ MeadowsClauses(ev) ==
       x == xs IN
   << Cl("enabled", Loadable(d) /\ Len(ev.i.order) >= 3 /\ Range(ev.i.order) = 1..Len(ev.i.order)),
      Cl("name", g.shape = x.shape /\ g.exp = x.exp /\ g.ver = x.ver /\ g.struct = x.struct /\ g.ft = x.ft),
-     Cl("conds", g.conds = x.conds),
-     Cl("values", g.vec = (IF g.tpos = xs.alt.tpos THEN xs.alt.vec ELSE xs.vec)),
+     Cl("conds", g.conds = x.labels),
+     Cl("values", LET y == IF g.tpos = xs.alt.tpos THEN xs.alt ELSE xs IN g.vec = y.vec \/ g.vec = y.vecswap),
      Cl("assoc", Len(g.vec) = Len(IF g.tpos = xs.alt.tpos THEN xs.alt.rows ELSE xs.rows)
-                 /\ AssocOk([conds |-> g.conds, vec |-> g.vec,
+                 /\ AssocOk([conds |-> IF g.vec = xs.vec \/ g.vec = xs.alt.vec THEN xs.conds ELSE xs.condswap, vec |-> g.vec,
                              rows |-> IF g.tpos = xs.alt.tpos THEN xs.alt.rows ELSE xs.rows])),
      Cl("participant", IF xs.shape = "mp1t" THEN g.plist = xs.plist
                        ELSE g.participant = (IF g.tpos = xs.alt.tpos THEN xs.alt.participant ELSE xs.participant)),
